@@ -520,4 +520,15 @@ theorem resolve_minimal (H : Hier) (table : List Sig) (t : Tup) (i : Nat)
   simp only [ltb, hlt.1, hlt.2, Bool.not_false, Bool.and_self] at this
   exact absurd this (by simp)
 
+/-! ### reading `okOn` when no clause is recorded -/
+
+/-- `Res.isUnique` says that the outcome is `.unique i` for some `i` -/
+theorem Res.isUnique_iff (r : Res) : r.isUnique = true ↔ ∃ i, r = .unique i := by
+  cases r <;> simp [Res.isUnique]
+
+/-- without recorded clauses nothing is excluded: the per-tuple check IS "the resolver returns a unique rule" -/
+theorem okOn_nil (H : Hier) (table : List Sig) (t : Tup) :
+    okOn H table [] t = (resolve H table t).isUnique := by
+  simp [okOn, excluded]
+
 end ColaVerif.Dispatch
